@@ -165,20 +165,31 @@ def validate(table, lr1, pmap, kind, cfg):
 
 def table_grammar_worker(args):
     pid, prods, params = args
+    prods0 = prods
     res = {"evaluations": 0, "nontrivial": 0, "violations": [], "samples": [], "counters": {}}
     cnt = res["counters"]
     only = params.get("only")
+    layout_start = bool(params.get("layout_start"))
+    if layout_start:
+        # start production = the LAYOUT rule: the scope grammar with S renamed to LAYOUT, behind a dummy main rule
+        ren = lambda x: "LAYOUT" if x == "S" else x     # noqa
+        prods = tuple((ren(l), tuple(ren(x) for x in r)) for l, r in prods)
     terms = {t: lit(t) for t in (used_terms(prods) or ["a"])}
     cfg = CFG(prods, terms)
     text = grammar_text(prods)
     pmap = prod_index_map(prods)
+    if layout_start:
+        text = "Main: 'z';\n" + text
+        pmap = {k + 1: v for k, v in pmap.items()}
     lr1 = LR1(cfg)
     n_canon = len(lr1.states)
     nsyms = len(cfg.nts) + len(terms) + 1
 
     def viol(monitor, kind, detail):
         key = {"grammar": text, "tables": KIND_NAME[kind]}
-        res["violations"].append((monitor, key, detail, {"family": "tables", "pid": pid, "prods": prods,
+        if layout_start:
+            key["start_production"] = "LAYOUT"
+        res["violations"].append((monitor, key, detail, {"family": "tables", "pid": pid, "prods": prods0,
                                                          "params": {k: v for k, v in params.items() if k != "only"}}))
 
     try:
@@ -186,6 +197,7 @@ def table_grammar_worker(args):
     except Exception as e:  # noqa
         res["violations"].append(("grammar.from_string", {"grammar": text}, exc_str(e)))
         return res
+    skw = {"start_production": g.get_production_id("LAYOUT")} if layout_start else {}
     for kind in (LALR, SLR):
         if only and KIND_NAME[kind] != only["tables"]:
             continue
@@ -197,7 +209,7 @@ def table_grammar_worker(args):
         try:
             with state_budget(budget) as sb, contextlib.redirect_stdout(io.StringIO()):
                 table = create_table(g, itemset_type=LR_1 if kind == LALR else LR_0, prefer_shifts=False,
-                                     prefer_shifts_over_empty=False)
+                                     prefer_shifts_over_empty=False, **skw)
             cnt["max_states_over_canonical_x100"] = max(cnt.get("max_states_over_canonical_x100", 0),
                                                         (100 * len(table.states)) // n_canon)
         except Diverged:
@@ -206,7 +218,7 @@ def table_grammar_worker(args):
             try:
                 with state_budget(10 * budget), contextlib.redirect_stdout(io.StringIO()):
                     create_table(g, itemset_type=LR_1 if kind == LALR else LR_0, prefer_shifts=False,
-                                 prefer_shifts_over_empty=False)
+                                 prefer_shifts_over_empty=False, **skw)
                 cnt["needed_more_than_budget_but_terminated"] = cnt.get("needed_more_than_budget_but_terminated", 0) + 1
             except Diverged:
                 g.productions[0].rhs = old_rhs
